@@ -942,14 +942,34 @@ class Variable(CanBehaveLikeAVariable[T]):
             if isinstance(domain, HashedIterable):
                 self._domain_ = domain
             if isinstance(domain, SymbolicExpression):
-                # the values of another variable or the solutions of another query, filtered by type like any other
-                # supplied domain.
-                new_domain = (v[domain._id_] for v in domain._evaluate__()
-                              if not isinstance(self._type_, type) or isinstance(v[domain._id_].value, self._type_))
+                new_domain = self._values_of_domain_expression_(domain)
             elif not is_iterable(domain):
                 new_domain = [HashedValue(domain)]
             new_domain = new_domain or domain
             self._domain_.set_iterable(new_domain)
+
+    def _values_of_domain_expression_(self, domain: SymbolicExpression) -> Iterable[HashedValue]:
+        """
+        The values of another variable or the solutions of another query, filtered by type like any other supplied
+        domain. They are read when this variable is evaluated.
+        """
+        try:
+            values = domain._evaluate__()
+            if isinstance(domain, ResultQuantifier):
+                # a query can be the domain of several variables: its result caches and the outputs it has seen belong to
+                # the variable that read it before. It is read in one go: an evaluation of this variable that is suspended
+                # holds no half-read query that another reader of the same query would disturb.
+                domain._reset_cache_()
+                values = list(values)
+            for v in values:
+                if not isinstance(self._type_, type) or isinstance(v[domain._id_].value, self._type_):
+                    yield v[domain._id_]
+        except Exception:
+            # reading the domain was aborted (user code raised, a the(...) has no or several solutions): what was read so
+            # far is not the domain. The next evaluation reads it again, and fails again if the reason is still there.
+            self._domain_.clear()
+            self._domain_.set_iterable(self._values_of_domain_expression_(domain))
+            raise
 
     def _update_child_vars_from_kwargs_(self):
         if self._kwargs_:
